@@ -52,6 +52,7 @@ type c16 struct {
 	turnR int           // rotates the kinds of the "retiring" scenario
 	turnM int           // rotates the kinds of the "multi" scenario
 	turnC int           // rotates the task-size profiles of the chunk stress histories
+	turnS int           // alternates Wait / Flush in the "syncwait" scenario
 	turnZ int           // alternates the task-size profiles of the chunk "retiring" histories
 	grace time.Duration // how long a call may stay unreturned (environment kept going) before it is recorded as hung
 	hung  atomic.Bool   // a hang was recorded: recording stops (the stuck goroutines cannot be joined)
@@ -73,7 +74,7 @@ func (c *c16) count(name string) {
 }
 
 var c16Counters = []string{"hist_per", "hist_bulk", "hist_chunk", "hist_handover", "adds", "waits", "flushes", "ticks", "jumps",
-	"flusher_starts", "flusher_stops", "takes_nonempty", "execs", "hist_quitrace", "hangs",
+	"flusher_starts", "flusher_stops", "takes_nonempty", "execs", "hist_quitrace", "hist_syncwait", "hangs",
 	"hist_retiring", "retiring_hit", "retiring_stop_hit", "retiring_final_hit", "rests", "hist_multi", "multi_execs", "multi_defaulted", "multi_concurrent",
 	"default_full_batches", "tickers_timed", "hist_chunk_zero", "zero_batches", "zero_adds", "retiring_zero", "edge_adds"}
 
@@ -686,6 +687,57 @@ func (c *c16) handover() {
 	c.finish(h, h.pe.Wait)
 }
 
+// syncwait: a Wait (odd turns: an explicit Flush) that overlaps another caller's Sync, which
+// runs its function under pe.lock (SetName / SetResultHandler / UpdateStmt of the bulk
+// inserter go through Sync).  Two below-threshold tasks are pending; Sync's function is held
+// until the Wait / Flush has returned or 100 ms passed.  An executor that honours the property
+// makes the time-out fire (its flush queues behind the lock); the verdict is the acceptor's:
+// a Wait or Flush that returns while an earlier added task is unexecuted is rejected.
+func (c *c16) syncwait() {
+	c.count("hist_syncwait")
+	c.turnS++
+	h := c.newHist()
+	h.begin("per", 4, "syncwait")
+	rc := &c16container{c: c, h: h, thr: 4, r: rand.New(rand.NewSource(1))}
+	h.pe = NewPeriodicalExecutor(c16Interval, rc)
+	h.pe.newTicker = h.newTicker
+	add := func(p, id int) {
+		h.call(p, "add", id, 1, func() { h.pe.Add(c16task{p: p, id: id, size: 1}) })
+	}
+	if !h.step(func() { add(1, 1); add(1, 2) }) {
+		return
+	}
+	inSync := make(chan struct{})
+	returned := make(chan struct{})
+	var wg sync.WaitGroup
+	wg.Add(2)
+	go func() {
+		defer wg.Done()
+		h.pe.Sync(func() {
+			close(inSync)
+			c16soon(returned, 100*time.Millisecond)
+		})
+	}()
+	if !c16soon(inSync, 5*time.Second) {
+		c16infra("syncwait: Sync did not run its function")
+	}
+	go func() {
+		defer wg.Done()
+		if c.turnS%2 == 0 {
+			h.call(2, "wait", 0, 0, h.pe.Wait)
+		} else {
+			h.call(2, "flush", 0, 0, func() { h.pe.Flush() })
+		}
+		close(returned)
+	}()
+	done := make(chan struct{})
+	go func() { wg.Wait(); close(done) }()
+	if !h.await(done, true) {
+		return
+	}
+	c.finish(h, h.pe.Wait)
+}
+
 // quitrace: the idle-quit decision of the background flusher racing a threshold Add (the
 // window guarded by `inflight` in shallQuit; CmdCovered / deadlock freedom in
 // spec/PeriodicalImpl.tla).  A slow Flush keeps the wait group busy, a Wait holds the barrier,
@@ -1274,7 +1326,7 @@ func TestVerifC16Trace(t *testing.T) {
 		every int
 		fn    func()
 	}{
-		{"handover", 10, c.handover}, {"quitrace", 10, c.quitrace},
+		{"handover", 10, c.handover}, {"quitrace", 10, c.quitrace}, {"syncwait", 5, c.syncwait},
 		{"retiring", 2, func() {
 			c.turnR++
 			shard := kit.EnvInt("VERIF_SHARD", 0)
